@@ -829,7 +829,7 @@ theorem asm_fv (hk : HooksOK h) : ∀ (v : CFv), wfFv h v = true → ∀ (rz : B
         · left; exact hfit
         · right
           simp only [Bool.and_eq_true, bne_iff_ne, ne_eq, decide_eq_true_eq] at hfit
-          exact ⟨by simp [Spec.treeFv, Fv.info, hfit.1], hfit.2.1, hfit.2.2⟩
+          exact ⟨by simp [Spec.treeFv, Fv.info, hfit.1], hfit.2.1.1.1, hfit.2.1.1.2⟩
       obtain ⟨i', hfin, hi'⟩ := finishFv_gen (Spec.treeFv (.ffs zv v3 attrs rev rsv (b0 :: bs) ext (flatFiles files) free) off rz).info zv
         (if v3 then guidFFS3 else guidFFS2) (endFiles (preLen (b0 :: bs) ext) (flatFiles files) + free) attrs (ehoOf (b0 :: bs) ext)
         rsv rev b0 bs (preBytes (b0 :: bs) ext ++ serFiles (preLen (b0 :: bs) ext) (flatFiles (relay (preLen (b0 :: bs) ext) (normFiles h files)))) st1
@@ -860,7 +860,7 @@ theorem asm_fv (hk : HooksOK h) : ∀ (v : CFv), wfFv h v = true → ∀ (rz : B
             · left; exact hfit
             · right
               simp only [Bool.and_eq_true, bne_iff_ne, ne_eq, decide_eq_true_eq] at hfit
-              exact ⟨b0, bs, rfl, hfit.2.2⟩)
+              exact ⟨b0, bs, rfl, hfit.2.1.1.2⟩)
         have e : endFiles (preLen (b0 :: bs) ext) (flatFiles (relay (preLen (b0 :: bs) ext) (normFiles h files))) +
             ((finishLen (endFiles (preLen (b0 :: bs) ext) (flatFiles files) + free)
               (endFiles (preLen (b0 :: bs) ext) (flatFiles (relay (preLen (b0 :: bs) ext) (normFiles h files)))) (b0 :: bs)).1 -
